@@ -1,5 +1,6 @@
 import IceProofs.Sys2C20Hist
 import IceProofs.Sys2C20Frame
+import IceProofs.Sys2C20Ans
 import IceProofs.Sys2C20Outs
 /-!
 # C20 on `Sys2` — the invariant of a renomination exchange and its preservation by one agent event
@@ -21,17 +22,18 @@ def Session (s : Sys) : Prop :=
 instance (s : Sys) : Decidable (Session s) := by unfold Session; infer_instance
 
 /-- what the invariant says of a datagram in flight: a nomination value is carried only by a Binding request A issued
-from `d.src` to `d.dst` with that value; a USE-CANDIDATE request carries a value (no ordinary nomination in flight) -/
+from `d.src` to `d.dst` with that value -/
 def DgramOK (h : Hist) (d : Dgram) : Prop :=
-  ∀ m, d.p = .stun m →
-    (∀ v, m.nom = some v → m.cls = 0 ∧ (v, d.src, d.dst) ∈ h.issued) ∧
-    (m.cls = 0 → m.useCand = true → m.nom.isSome = true)
+  ∀ m, d.p = .stun m → ∀ v, m.nom = some v → m.cls = 0 ∧ (v, d.src, d.dst) ∈ h.issued
 
 theorem DgramOK.mono {h h' : Hist} {d : Dgram} (hd : DgramOK h d) (hsub : ∀ x ∈ h.issued, x ∈ h'.issued) :
     DgramOK h' d := by
-  intro m hm
-  obtain ⟨h1, h2⟩ := hd m hm
-  exact ⟨fun v hv => ⟨(h1 v hv).1, hsub _ (h1 v hv).2⟩, h2⟩
+  intro m hm v hv
+  exact ⟨(hd m hm v hv).1, hsub _ (hd m hm v hv).2⟩
+
+/-- the mark clause of the invariant for one pair of B: a deferred value is at most the highest accepted value -/
+def MarkOK (last : Option Nat) (p : Pair) : Prop :=
+  ∀ v', p.deferredNom = some v' → ∃ l, last = some l ∧ v' ≤ l
 
 /-- the invariant of an exchange (`nat` = the NAT mapping of the topology) -/
 structure QInv (nat : List (Nat × Nat)) (h : Hist) (s : Sys) : Prop where
@@ -43,10 +45,11 @@ structure QInv (nat : List (Nat × Nat)) (h : Hist) (s : Sys) : Prop where
   fl : ∀ d ∈ s.inflight, DgramOK h d
   /-- every outstanding transaction of A that carries a value belongs to an issued nomination -/
   pendA : ∀ pd ∈ s.a.pending, ∀ v, pd.nom = some v → (v, pd.src, pd.dest) ∈ h.issued
-  /-- A has a selected pair -/
-  selA : s.a.selected.isSome = true
-  /-- … and it is the pair of the nomination whose response A processed last -/
-  ansA : ∀ x, h.answered = some x → x ∈ h.issued ∧ selAddrs s.a = some (x.2.1, x.2.2)
+  /-- every answered nomination was issued, and A's `answeredNomination` is at least its value -/
+  ansA : ∀ x ∈ h.answered, x ∈ h.issued ∧ ∃ w, s.a.answeredNomination = some w ∧ x.1 ≤ w
+  /-- A's `answeredNomination` is the value of an answered nomination, and A's selected pair is that nomination's -/
+  selA : ∀ w, s.a.answeredNomination = some w →
+    ∃ x ∈ h.answered, x.1 = w ∧ selAddrs s.a = some (x.2.1, x.2.2)
   /-- B's highest accepted value is the value accepted last -/
   lastB : s.b.lastNomination = h.accepted.map (·.1)
   /-- it was issued by A, arrived on the mirror image (modulo NAT) of the pair A issued it on, and the pair it arrived
@@ -56,10 +59,8 @@ structure QInv (nat : List (Nat × Nat)) (h : Hist) (s : Sys) : Prop where
     ∃ id, pairAddrs s.b id = some (lb, rb) ∧
       (s.b.selected = some id ∨ ∃ p ∈ s.b.checklist, p.id = id ∧ nk p = (false, true, some v)) ∧
       ∀ p ∈ s.b.checklist, p.deferredNom = some v → p.id = id
-  /-- deferred marks of B carry a value, and no value above the highest accepted one -/
-  defB : ∀ p ∈ s.b.checklist,
-    (p.nomOnSuccess = true → p.deferredNom.isSome = true) ∧
-    (∀ v', p.deferredNom = some v' → ∃ last, s.b.lastNomination = some last ∧ v' ≤ last)
+  /-- deferred values of B never exceed the highest accepted one -/
+  defB : ∀ p ∈ s.b.checklist, MarkOK s.b.lastNomination p
 
 /-! ## small tools -/
 
@@ -118,5 +119,21 @@ theorem mem_dgramsOf_stun {o : List Out} {d : Dgram} (hd : d ∈ dgramsOf o) {m 
   | cbPair _ _ => cases hxd
   | cbCand _ => cases hxd
   | res _ => cases hxd
+
+theorem selAddrs_keep {ex : Option Nat} {iss : Option (Nat × Nat × Nat)} {a a' : Agent} (hq : NomQ ex iss a a')
+    (hs : a'.selected = a.selected) (x : Nat × Nat) (hx : selAddrs a = some x) : selAddrs a' = some x := by
+  unfold selAddrs at hx ⊢
+  rw [hs]
+  cases hsel : a.selected with
+  | none => rw [hsel] at hx; cases hx
+  | some id =>
+    rw [hsel] at hx
+    exact hq.addrs id x hx
+
+theorem selAddrs_some_selected {a : Agent} {x : Nat × Nat} (h : selAddrs a = some x) : a.selected.isNone = false := by
+  unfold selAddrs at h
+  cases hs : a.selected with
+  | none => rw [hs] at h; cases h
+  | some _ => rfl
 
 end IceProofs.C20S
